@@ -242,12 +242,18 @@ def build_cylinder(cyl):
     from scippneutron.absorption import Cylinder
 
     u = cyl["unit"]
-    return Cylinder(
-        sc.vector(cyl["axis"]),
-        sc.vector(cyl["base"], unit=u),
-        sc.scalar(float(cyl["r"]), unit=u),
-        sc.scalar(float(cyl["h"]), unit=u),
-    )
+    if cyl.get("size_unit"):
+        # radius and height as whole numbers of a finer unit in integer variables (seeded/C18-s3)
+        k = FINER[u][cyl["size_unit"]]
+        # (the height must share the unit of the base point: Cylinder.center adds the two)
+        radius = sc.scalar(int(round(cyl["r"] * k)), unit=cyl["size_unit"], dtype="int64")
+        height = sc.scalar(float(cyl["h"]), unit=u)
+    else:
+        radius, height = sc.scalar(float(cyl["r"]), unit=u), sc.scalar(float(cyl["h"]), unit=u)
+    return Cylinder(sc.vector(cyl["axis"]), sc.vector(cyl["base"], unit=u), radius, height)
+
+
+FINER = {"m": {"mm": 1000, "cm": 100, "um": 10**6}, "cm": {"mm": 10, "um": 10**4}, "mm": {"um": 1000}}
 
 
 # ----------------------------------------------------------------------------- facet 1: path lengths
@@ -590,6 +596,12 @@ MONOMIALS = [(i, j, k) for i in range(4) for j in range(4) for k in range(4) if 
 @st.composite
 def quadrature_cases(draw, region, kinds=KINDS):
     cyl = draw(cylinder_cases(region))
+    if cyl["unit"] in FINER and draw(st.sampled_from([False, False, True])):
+        fu = draw(st.sampled_from(sorted(FINER[cyl["unit"]])))
+        k = FINER[cyl["unit"]][fu]
+        r_i = max(1, round(cyl["r"] * k))
+        if r_i < 2**31:
+            cyl = dict(cyl, r=r_i / k, size_unit=fu)
     return {"cyl": cyl, "kind": draw(st.sampled_from(kinds))}
 
 
@@ -600,11 +612,13 @@ def check_quadrature(case, stats=None):
     cyl, kind = case["cyl"], case["kind"]
     r, h, u = cyl["r"], cyl["h"], cyl["unit"]
     labels = ["axis:" + cyl["axis_class"], "kind:" + kind, "unit:" + u,
-              "aspect:1e%+d" % round(math.log10(h / r))]
+              "aspect:1e%+d" % round(math.log10(h / r)), "sizes:" + ("int64 " + cyl["size_unit"] if cyl.get("size_unit") else "float")]
     c = build_cylinder(cyl)
     points, weights = c.quadrature(kind)
     if points.unit != sc.Unit(u):
         raise Violation("quad-unit", f"points in {points.unit}, expected {u}")
+    if cyl.get("size_unit"):
+        weights = weights.to(unit=sc.Unit(u) ** 3)      # a volume in mixed units (um^2 mm) is still a volume
     if weights.unit != sc.Unit(u) ** 3:
         raise Violation("quad-unit", f"weights in {weights.unit}, expected {u}^3")
     if points.dims != weights.dims or len(points.dims) != 1:
@@ -618,6 +632,8 @@ def check_quadrature(case, stats=None):
                         {"n_nonfinite_points": int(np.sum(~np.isfinite(p)))})
     V = float(geom.cylinder_volume(r, h))
     vol = c.volume
+    if cyl.get("size_unit"):
+        vol = vol.to(unit=sc.Unit(u) ** 3, dtype="float64")
     if vol.unit != sc.Unit(u) ** 3 or abs(vol.value / V - 1) > 1e-13:
         raise Violation("volume", f"volume {vol.value} {vol.unit}, expected {V} {u}^3")
     # membership, in the Gram-Schmidt frame
